@@ -31,7 +31,7 @@ ASSUMPTIONS = ["same computation twice is compared bitwise (gradient at each ste
                "reference loop under the same torch seed) - one CPU thread, deterministic algorithms",
                "lazy models: parameter equality with the reference loop is not asserted (the materialisation pass consumes randomness); "
                "the step-local gradient check covers them"]
-PROBES = ["mode_switched_below_the_hedger", "epochs_0", "epochs_ge2", "n_times_ge2", "validation_off", "optimizer_instance", "optimizer_class", "lazy_model", "dropout_model",
+PROBES = ["earlier_fit_aborted", "mode_switched_below_the_hedger", "epochs_0", "epochs_ge2", "n_times_ge2", "validation_off", "optimizer_instance", "optimizer_class", "lazy_model", "dropout_model",
           "prev_hedge", "H2", "init_state", "ambient_no_grad", "entered_in_eval_mode", "second_fit_same_hedger", "param_equal_reference",
           "step_local_grad", "stale_grad_at_entry", "same_optimizer_class_again"]
 
@@ -126,6 +126,10 @@ def generate(rng):
             ops.append({"fault": "mode", "mode": rng.choice(["eval", "eval", "train"]), "target": rng.choice(["model", "layer"])})
         if rng.chance(0.2):
             ops.append({"op": "pre_hedge", "n_paths": rng.choice([1, 3]), "torch_seed": rng.seed31()})
+        if rng.chance(0.2):
+            # F8: an earlier fit() on the same hedger was aborted (the model raised at its k-th forward, or the user hit Ctrl-C)
+            ops.append({"fault": "aborted_fit", "k": rng.randint(0, 7), "n_paths": rng.choice([2, 3]), "n_epochs": rng.choice([1, 2, 3]),
+                        "validation": rng.chance(0.5), "exc": rng.choice(["error", "keyboard"]), "torch_seed": rng.seed31()})
         if rng.chance(0.3):
             # the user inspected gradients before training: parameters carry a stale .grad when fit() starts
             ops.append({"fault": "stale_grad", "n_paths": rng.choice([2, 3]), "torch_seed": rng.seed31()})
@@ -181,6 +185,38 @@ def _execute(program, stats, hist):
     nfit = 0
     for op in program["ops"]:
         seq = hist.seq
+        if op.get("fault") == "aborted_fit":
+            class _Fault(RuntimeError):  # what torch itself raises on a shape or dtype error
+                pass
+            rec_ = h.model
+            exc = KeyboardInterrupt if op["exc"] == "keyboard" else _Fault
+
+            def before(kk, x, _k=op["k"], _exc=exc):
+                if kk >= _k:
+                    raise _exc("injected at forward %d" % kk)
+            rec_.reset()
+            rec_.before = before
+            ev_saved, rec_.events = rec_.events, None
+            torch.manual_seed(op["torch_seed"])
+            raised = False
+            try:
+                h.fit(d, hedge=world.hedge_list(next((o.get("hedge") for o in reversed(program["ops"]) if "hedge" in o), None)),
+                      n_epochs=op["n_epochs"], n_paths=op["n_paths"], validation=op["validation"], verbose=False)
+            except (_Fault, KeyboardInterrupt):
+                raised = True
+            except Exception as e:
+                rec_.before = None
+                rec_.events = ev_saved
+                raise Inconclusive("aborted fit raised something else: %r" % (e,))
+            finally:
+                rec_.before = None
+                rec_.events = ev_saved
+                torch.set_grad_enabled(True)
+            stats.fault("F8_callback_exception")
+            if raised:
+                stats.probe("earlier_fit_aborted")
+            hist.add(fault="aborted_fit", raised=raised)
+            continue
         if op.get("fault") == "stale_grad":
             torch.manual_seed(op["torch_seed"])
             try:
